@@ -481,37 +481,7 @@ func runAccept(c *Ctx, ac *acceptCtx, spec acceptSpec) {
 			key := spec.Prop + ".prefix/" + fid
 			bad := ""
 			for _, ret := range guard.SuccessReturns(f) {
-				ok := false
-				for _, fct := range guard.BlockFacts(ret.Block()) {
-					call, val, isB := guard.BoolCallFact(fct)
-					if !isB || !val {
-						continue
-					}
-					n := guard.CalleeName(&call.Call)
-					a0, a1 := call.Call.Args[0], call.Call.Args[1]
-					isPF := func(v ssa.Value) bool {
-						b, fld, ok := guard.FieldOf(v)
-						return ok && fld == pf && guard.Strip(b) == ssa.Value(f.Params[0])
-					}
-					switch n {
-					case "bytes.HasPrefix":
-						if guard.Strip(a0) == ssa.Value(input) && isPF(a1) {
-							ok = true
-						}
-					case "bytes.Equal", "slices.Equal", "crypto/subtle.ConstantTimeCompare":
-						for _, pr := range [][2]ssa.Value{{a0, a1}, {a1, a0}} {
-							sl, isSl := guard.Strip(pr[0]).(*ssa.Slice)
-							if isSl && sl.Low == nil && guard.Strip(sl.X) == ssa.Value(input) && isPF(pr[1]) {
-								// the slice must be exactly len(prefix) long
-								cx := bounds.NewCtx(f)
-								if sl.High != nil && cx.Lin(sl.High).String() == cx.LenOf(pr[1]).String() {
-									ok = true
-								}
-							}
-						}
-					}
-				}
-				if !ok {
+				if !prefixCheckedAt(ret.Block(), f, f.Params[0], input, pf, 0) {
 					bad = p.Pos(ret.Pos())
 				}
 			}
@@ -554,6 +524,153 @@ func runAccept(c *Ctx, ac *acceptCtx, spec acceptSpec) {
 			c02Bound(c, spec, s, isAdapter && s.fn == f)
 		}
 	}
+}
+
+// prefixCheckedAt: block b of fn is dominated by an exact comparison of the
+// leading bytes of input with the whole recv.<pf>, made in fn itself or inside
+// a callee whose success dominates b and which makes that comparison on every
+// one of its own success returns (helper extraction).
+func prefixCheckedAt(b *ssa.BasicBlock, fn *ssa.Function, recv, input ssa.Value, pf string, depth int) bool {
+	isPF := func(v ssa.Value) bool {
+		bb, fld, ok := guard.FieldOf(v)
+		return ok && fld == pf && guard.Strip(bb) == recv
+	}
+	for _, fct := range guard.BlockFacts(b) {
+		// rest, ok := bytes.CutPrefix(input, recv.prefix); ok
+		if ex, isEx := fct.Cond.(*ssa.Extract); isEx && fct.True && ex.Index == 1 {
+			if call, isCall := ex.Tuple.(*ssa.Call); isCall && guard.CalleeName(&call.Call) == "bytes.CutPrefix" &&
+				guard.Strip(call.Call.Args[0]) == input && isPF(call.Call.Args[1]) {
+				return true
+			}
+		}
+		if call, val, isB := guard.BoolCallFact(fct); isB && val && len(call.Call.Args) >= 2 {
+			n := guard.CalleeName(&call.Call)
+			a0, a1 := call.Call.Args[0], call.Call.Args[1]
+			switch n {
+			case "bytes.HasPrefix":
+				if guard.Strip(a0) == input && isPF(a1) {
+					return true
+				}
+			case "bytes.Equal", "slices.Equal", "crypto/subtle.ConstantTimeCompare":
+				for _, pr := range [][2]ssa.Value{{a0, a1}, {a1, a0}} {
+					if isPF(pr[1]) && isLeadingPrefixSlice(pr[0], fn, recv, input, pf, 0) {
+						return true
+					}
+				}
+			}
+		}
+		// success of a helper that makes the comparison
+		var call *ssa.Call
+		if c, isNil, ok := guard.ErrNilFact(fct); ok && isNil {
+			call = c
+		} else if c, val, ok := guard.BoolCallFact(fct); ok && val {
+			call = c
+		}
+		if call == nil || depth >= 3 {
+			continue
+		}
+		g := call.Call.StaticCallee()
+		if g == nil || g.Blocks == nil || core.FuncClass(g) != core.Product {
+			continue
+		}
+		ri, ii := -1, -1
+		for i, a := range call.Call.Args {
+			if guard.Strip(a) == recv {
+				ri = i
+			}
+			if guard.Strip(a) == input {
+				ii = i
+			}
+		}
+		if ri < 0 || ii < 0 || ri >= len(g.Params) || ii >= len(g.Params) {
+			continue
+		}
+		all := true
+		rets := guard.SuccessReturns(g)
+		if len(rets) == 0 {
+			all = false
+		}
+		for _, ret := range rets {
+			if res := g.Signature.Results(); res.Len() > 0 {
+				if bt, isBasic := res.At(res.Len() - 1).Type().Underlying().(*types.Basic); isBasic && bt.Kind() == types.Bool {
+					// bool verdict: only returns of a possibly-true value count
+					if k, isK := guard.ConstBool(ret.Results[len(ret.Results)-1]); isK && !k {
+						continue
+					}
+				}
+			}
+			if !prefixCheckedAt(ret.Block(), g, g.Params[ri], g.Params[ii], pf, depth+1) {
+				all = false
+			}
+		}
+		if all {
+			return true
+		}
+	}
+	return false
+}
+
+// isLeadingPrefixSlice: v is input[:len(recv.<pf>)] — written in fn itself, or
+// handed back by a helper of the module that computes it from the same
+// receiver and input on every non-failing return.
+func isLeadingPrefixSlice(v ssa.Value, fn *ssa.Function, recv, input ssa.Value, pf string, depth int) bool {
+	v = guard.Strip(v)
+	if sl, ok := v.(*ssa.Slice); ok {
+		if sl.Low != nil {
+			if k, isK := guard.ConstInt(sl.Low); !isK || k != 0 {
+				return false
+			}
+		}
+		if guard.Strip(sl.X) != input || sl.High == nil {
+			return false
+		}
+		// the slice must be exactly len(prefix) long
+		cx := bounds.NewCtx(fn)
+		var pfLen string
+		allInstrs(fn, func(ins ssa.Instruction) {
+			if u, isU := ins.(*ssa.UnOp); isU && pfLen == "" {
+				if b, fld, isF := guard.FieldOf(u); isF && fld == pf && guard.Strip(b) == recv {
+					pfLen = cx.LenOf(u).String()
+				}
+			}
+		})
+		return pfLen != "" && cx.Lin(sl.High).String() == pfLen
+	}
+	ex, ok := v.(*ssa.Extract)
+	if !ok || depth >= 2 {
+		return false
+	}
+	call, isCall := ex.Tuple.(*ssa.Call)
+	if !isCall {
+		return false
+	}
+	g := call.Call.StaticCallee()
+	if g == nil || g.Blocks == nil || core.FuncClass(g) != core.Product {
+		return false
+	}
+	ri, ii := -1, -1
+	for i, a := range call.Call.Args {
+		if guard.Strip(a) == recv {
+			ri = i
+		}
+		if guard.Strip(a) == input {
+			ii = i
+		}
+	}
+	if ri < 0 || ii < 0 || ri >= len(g.Params) || ii >= len(g.Params) {
+		return false
+	}
+	n := 0
+	for _, ret := range guard.Returns(g) {
+		if guard.DefinitelyFails(ret) || ex.Index >= len(ret.Results) {
+			continue
+		}
+		n++
+		if !isLeadingPrefixSlice(ret.Results[ex.Index], g, g.Params[ri], g.Params[ii], pf, depth+1) {
+			return false
+		}
+	}
+	return n > 0
 }
 
 func c02Bound(c *Ctx, spec acceptSpec, s boundSite, adapter bool) {
